@@ -250,11 +250,8 @@ void dispatch(std::istringstream& in, std::ostream& out)
   else throw std::runtime_error("unknown query " + q);
 }
 
-bool read_problem(std::istream& in)
+bool read_body(std::istream& in)
 {
-  string w;
-  if (!(in >> w) || w != "problem") return false;
-  in >> P.M >> P.N;
   P.rows.assign(P.M, {});
   for (int i=0; i<P.M; i++) {
     int k; in >> k;
@@ -277,6 +274,14 @@ bool read_problem(std::istream& in)
   return bool(in);
 }
 
+bool read_problem(std::istream& in)
+{
+  string w;
+  if (!(in >> w) || w != "problem") return false;
+  in >> P.M >> P.N;
+  return read_body(in);
+}
+
 } // namespace
 
 int main()
@@ -287,6 +292,16 @@ int main()
   std::getline(std::cin, line);
   while (std::getline(std::cin, line)) {
     if (line.empty()) continue;
+    if (line.rfind("problem ", 0) == 0) {
+      // another problem replaces the current one: objects that exist keep their state and get it by their next 'reset'
+      std::istringstream h(line);
+      string w; h >> w >> P.M >> P.N;
+      bool ok = read_body(std::cin);
+      string rest; std::getline(std::cin, rest);
+      std::cout << (ok ? "{\"ok\":\"problem\"}" : "{\"fatal\":\"bad problem\"}") << std::endl;
+      if (!ok) return 2;
+      continue;
+    }
     std::istringstream in(line);
     std::ostringstream out;
     try {
